@@ -1170,7 +1170,7 @@ def cli_modes(ctx, rng, run_, pairs, res, nbases):
 
 
 # ------------------------------------------------------------------ option files: documented precedence
-PENDING = os.environ.get('C16_PENDING_FIXES', '0') == '1'     # judge clauses that need a pending fix (pending/C16-*.diff)
+PENDING = os.environ.get('C16_PENDING_FIXES', '1') == '1'     # judge clauses that need a pending fix (pending/C16-*.diff)
 PROBE = 'if true\nx = [1, 2]\nendif\n'
 
 
